@@ -15,7 +15,7 @@ import time
 from dv import core, trees
 from dv.core import cz, cnat, cbool, clist, copt, cpair
 
-HEADER = ("From DV Require Import Model.PyPrims Model.Tree Model.Heap Model.HeapOps Model.C03Model.\n"
+HEADER = ("From DV Require Import Model.PyPrims Model.Tree Model.Heap Model.HeapOps Model.C03Bip Model.C03Model.\n"
           "From Coq Require Import ZArith List. Import ListNotations. Open Scope Z_scope.")
 
 UNIT = trees.UNIT
@@ -278,6 +278,16 @@ class Session:
             except Exception as e:
                 snap["selfcheck"] = "%s: %s" % (type(e).__name__, str(e)[:120])
         return snap
+
+    def enc_dump(self):
+        """Tree.bipartition_encoding as [(owner node id, leafset mask)] in list order; the owner of a Bipartition
+        object is the node whose edge carries it (-1: no registered node does)"""
+        owner = {}
+        for i, n in self.reg.items():
+            b = n.edge._bipartition
+            if b is not None:
+                owner.setdefault(id(b), i)
+        return [[owner.get(id(b), -1), b._leafset_bitmask] for b in (self.tree.bipartition_encoding or [])]
 
     def bip_check(self):
         """after an op run with update_bipartitions=True: do the per-edge leafset masks and the encoding list
@@ -608,6 +618,8 @@ def observe(case):
                     snap["bip"] = sess.bip_check()
                 except Exception as e:
                     snap["bip"] = "bipartition check raised %s" % type(e).__name__
+                if not (op[0] == "PruneNodes" and not op[2]):    # known finding: flag ignored there
+                    snap["enc"] = sess.enc_dump()
             out.append(snap)
             if snap["tree"] is None or snap["problems"]:
                 break
@@ -936,9 +948,14 @@ def c_case(case, obs):
     for op, snap in zip(case["ops"], obs):
         if snap["tree"] is None or snap["problems"]:
             break                 # ill-formed states are the oracle's business; the model stops here
-        steps.append("(mkStep %s %s %s %s)" % (c_op(op, snap["aux"], case["ntaxa"]),
-                                               "None" if snap["err"] is None else "(Some %s)" % snap["err"],
-                                               zflat(enc_tree(snap["tree"])), ob(snap["rooted"])))
+        enc = snap.get("enc")
+        c_enc = "None" if enc is None else "(Some [%s])" % ";".join("(%d,%d)" % (a, b) if a >= 0 else "((%d),%d)" % (a, b)
+                                                                    for a, b in enc)
+        incr = op[0] == "SuppressUnifurcations" and len(op) > 1 and bool(op[1])
+        steps.append("(mkStep %s %s %s %s %s %s)" % (c_op(op, snap["aux"], case["ntaxa"]),
+                                                     "None" if snap["err"] is None else "(Some %s)" % snap["err"],
+                                                     zflat(enc_tree(snap["tree"])), ob(snap["rooted"]),
+                                                     cbool(incr), c_enc))
     return "(mkCase %s %s %s)" % (trees.c_tree(case["init"]), ob(case["rooted"]), clist(steps))
 
 
